@@ -1,6 +1,7 @@
 package main
 
 import (
+	"strconv"
 	"fmt"
 	"strings"
 	"unicode"
@@ -88,7 +89,14 @@ func lexSpec(src string) ([]tok, error) {
 			if j >= len(src) {
 				return nil, fmt.Errorf("unterminated string in %q", src)
 			}
-			ts = append(ts, tok{"str", src[i+1 : j]})
+			lit := src[i+1 : j]
+			if strings.Contains(lit, "\\") {
+				// Go escapes (\n, \t, \\, \") mean what they mean in Go source
+				if u, err := strconv.Unquote("\"" + lit + "\""); err == nil {
+					lit = u
+				}
+			}
+			ts = append(ts, tok{"str", lit})
 			i = j + 1
 			continue
 		}
